@@ -268,8 +268,8 @@ def run_case(case):
     if case.get('watch'):
         # every component looks at the world from its on_add: the type
         # queries and the per-entity queries tell one story there too
-        def on_add(self, entity, world):
-            if watch['world'] is not world or res.divs:
+        def on_add(self, entity, world, where='on_add'):
+            if 'types' not in watch or res.divs:
                 return
             watch['reads'] += 1
             for t, T in enumerate(watch['types']):
@@ -280,13 +280,15 @@ def run_case(case):
                     for c in world.get_components(x) if isinstance(c, T))
                 res.stats['queries_checked'] += 1
                 if got != want:
-                    res.div(t, 'get-inside-on_add', f'get(D{t}) asked from '
-                            'inside an on_add disagrees with entities/'
+                    res.div(t, 'get-inside-' + where, f'get(D{t}) asked '
+                            f'from inside an {where} disagrees with entities/'
                             'get_components asked at the same moment',
                             expected=len(want), observed=len(got))
                     return
         CRoot.on_add = on_add
-        CRoot = desper.event_handler('on_add')(CRoot)
+        CRoot.on_remove = lambda self, entity, world: on_add(
+            self, entity, world, 'on_remove')
+        CRoot = desper.event_handler('on_add', 'on_remove')(CRoot)
         res.tags['components_query_from_on_add'].add(True)
 
     same = case.get('same_names', False)
@@ -385,6 +387,10 @@ def run_case(case):
             e2, row2 = comps2[[x[0] for x in comps].index(e)]
             before = {x: set(c.uid for c in w2.get_components(x))
                       for x, _ in comps2}
+            if case.get('watch') and t % 2:
+                # (handler components: the on_remove is postponed)
+                w2.dispatch_enabled = False
+                res.tags['removal_while_dispatching_disabled'].add(True)
             removed = w2.remove_component(e2, T)
             after = {x: set(c.uid for c in w2.get_components(x))
                      for x, _ in comps2}
